@@ -66,7 +66,20 @@ def eval(
 
 def load(path: Union[str, DDSPath, pathlib.Path]) -> Any:
     path_ = DDSPathUtils.create(path)
-    key = _store().fetch_paths([path_]).get(path_)
+    key: Optional[PyHash]
+    if _eval_ctx is not None and path_ in _eval_ctx.requested_paths:
+        # The path is kept by the evaluation in progress: it is only committed to the store when the
+        # evaluation ends, so serve the blob that this evaluation assigned to it.
+        key = _eval_ctx.requested_paths[path_]
+        if not _store().has_blob(key):
+            raise DDSException(
+                f"The path {path_} is loaded before it is produced: it is kept later in the "
+                f"evaluation in progress. Suggestion: call the function that keeps {path_} before "
+                f"loading it.",
+                DDSErrorCode.STORE_PATH_NOT_FOUND,
+            )
+    else:
+        key = _store().fetch_paths([path_]).get(path_)
     if key is None:
         raise DDSException(f"The store {_store()} did not return path {path_}")
     else:
@@ -116,8 +129,7 @@ def set_store(
             )
         from .codecs.databricks import DBFSStore, CommitType, DBFSURI
 
-        commit_type = str(commit_type or CommitType.FULL.name).upper()
-        commit_type_ = CommitType[commit_type]
+        commit_type_ = CommitType.parse(commit_type)
 
         _store_var = DBFSStore(
             DBFSURI.parse(internal_dir), DBFSURI.parse(data_dir), dbutils, commit_type_
